@@ -16,7 +16,12 @@ def run(ctx):
     nsched = len(beh)
     for j in range(150 if quick else 3000):
         beh.append({"id": len(beh), "callers": ["a", "b", "c", "d"][: 2 + j % 3], "steps": [], "free": True, "rounds": 1 + j % 4})
-    ctx.log("%d schedules + %d free-running runs" % (nsched, len(beh) - nsched))
+    for j in range(10 if quick else 200):
+        beh.append({"id": len(beh), "callers": [], "steps": [], "free": True, "rounds": 0, "burst": 2 + (j * 3) % 15})
+    # sequential offers, some generated twice inside CreateOffer because a transceiver changed meanwhile: every pattern of 4
+    for m in range(16):
+        beh.append({"id": len(beh), "callers": [], "steps": [], "free": True, "rounds": 0, "armed": [bool(m >> i & 1) for i in range(4)]})
+    ctx.log("%d schedules + %d free-running runs, bursts and recompute runs" % (nsched, len(beh) - nsched))
     binary = vlib.go_build(ctx, "origin")
     infile = vlib.write_json(os.path.join(ctx.work, "behaviours.json"), beh)
     trace = os.path.join(ctx.work, "trace.ndjson")
